@@ -87,6 +87,33 @@ def check_program(arg):
         i = next(k for k in range(min(len(a), len(b))) if a[k] != b[k])
         fails.append(("tree_differs", "tree(F(P)) != tree(free(P)) near %r vs %r" % (a[max(0, i - 50):i + 40],
                                                                                       b[max(0, i - 50):i + 40]), rep))
+    # the detection must not depend on where the source comes from, nor on its length: the same texts (also
+    # with a long comment header, and the fixed one repeated to several kilobytes) through a file
+    import os, shutil, tempfile
+    from fparser.common.sourceinfo import get_source_info
+    d = tempfile.mkdtemp(prefix="verif_c05_")
+    try:
+        header_free = "".join("! %s\n" % ("header line %d " % k * 3) for k in range(90))
+        header_fix = "".join("C %s\n" % ("header line %d " % k * 3) for k in range(90))
+        texts = [("fixed", src), ("fixed_long_header", header_fix + src), ("fixed_x3", src * 3 if len(src) > 1500 else src * 6),
+                 ("free", canon), ("free_long_header", header_free + canon)]
+        for tag, text in texts:
+            pth = os.path.join(d, "prog_%s.f90" % tag)          # neutral extension: content decides
+            with open(pth, "w") as fh:
+                fh.write(text)
+            a = get_source_info_str(text)
+            b = get_source_info(pth)
+            with open(pth) as fh:
+                c = get_source_info(fh)
+            if (a.is_free, a.is_strict) != (b.is_free, b.is_strict) or (a.is_free, a.is_strict) != (c.is_free, c.is_strict):
+                fails.append(("file_detection_differs:" + tag, "detected from the string: free=%s, from the file name: free=%s, "
+                              "from the file object: free=%s" % (a.is_free, b.is_free, c.is_free),
+                              dict(std=std, source=text, variant=tag)))
+            elif a.is_free != tag.startswith("free"):
+                fails.append(("wrong_format:" + tag, "%s source detected as free=%s" % (tag, a.is_free),
+                              dict(std=std, source=text, variant=tag)))
+    finally:
+        shutil.rmtree(d, ignore_errors=True)
     # free rendering whose first statement starts in columns 1-5 with a character other than c, C, *
     if not st[0].text[:1].lower() in ("c", "*", "!"):
         ind = rng.randrange(0, 5)
